@@ -1,7 +1,7 @@
 (* C02 — statements only.  Every theorem is proved in Lemmas1.v / Lemmas2.v / Lemmas.v. *)
 From Coq Require Import ZArith List Bool String.
 Import ListNotations.
-From GV Require Import Common.Wire gen.Gen_tables C12.Model gen.Gen_codecs C02.CodecModel C02.Model C02.Lemmas.
+From GV Require Import Common.Wire gen.Gen_tables C12.Model gen.Gen_codecs C02.CodecModel gen.Gen_methodcodecs C02.MethodCodecModel C02.Model C02.Lemmas.
 Open Scope Z_scope.
 
 (* the object <-> name map built by GlueSerializer.id is a bijection for every sequence of registrations, never renames,
@@ -94,3 +94,30 @@ Theorem codec_ctor_fed : forall lc b args prm, In lc loader_codecs -> In b (lc_p
   In (prm, false) args -> In (cname (lc_cls lc), cname prm) legit_unfed_params.
 Proof. exact Lemmas.codec_ctor_fed. Qed.
 Print Assumptions codec_ctor_fed.
+
+(* ---- the __gluestate__ / __setgluestate__ method pairs of every class of the class table (gen/Gen_methodcodecs.v) ---- *)
+
+(* every value stored by every __gluestate__ is an image of instance state under lossless steps only (attribute access, np.asarray,
+   .tolist(), .items(), list / tuple / dict / str / float / int, displays, comprehensions / map without a filter, context.id / context.do):
+   every other transformation on the way (`.astype(...)`, np.round, np.float32, arithmetic, slicing, a helper method call, a test, a value
+   not computed from the instance) is a named (class, key, transformation) entry of legit_saver_transformations; no key is computed *)
+Theorem method_values_lossless : forall sv p k t, In sv method_savers -> In p (ms_paths sv) -> In k (msp_keys p) ->
+  msp_dynamic p = false /\ (In t (mk_lossy k) -> In (ms_cls sv, mk_key k, t) legit_saver_transformations).
+Proof. exact Lemmas.method_values_lossless. Qed.
+Print Assumptions method_values_lossless.
+
+(* on the way back every __setgluestate__ hands each stored value to the constructor / an attribute of the new object through
+   context.object, np.asarray, list / tuple / dict, displays and comprehensions only, except the named entries *)
+Theorem method_loader_steps_listed : forall ld r t, In ld method_loaders -> In r (ml_reads ld) ->
+  ml_dynamic ld = false /\ (In t (mr_steps r) -> In (ml_cls ld, mr_key r, t) legit_loader_transformations).
+Proof. exact Lemmas.method_loader_steps_listed. Qed.
+Print Assumptions method_loader_steps_listed.
+
+(* for the (class defining __gluestate__, class defining __setgluestate__) of every concrete class of the class table: both methods are
+   in the table, and every key the loader reads is written on every path of the saver, or is a named legacy key *)
+Theorem method_reads_written : forall g s, In (g, s) method_pairs ->
+  exists sv ld, In sv method_savers /\ ms_cls sv = g /\ In ld method_loaders /\ ml_cls ld = s /\
+    forall p r, In p (ms_paths sv) -> In r (ml_reads ld) ->
+      path_writes p (mr_key r) = true \/ In (s, mr_key r) legit_method_unwritten_reads.
+Proof. exact Lemmas.method_reads_written. Qed.
+Print Assumptions method_reads_written.
